@@ -320,6 +320,14 @@ impl UntypedHandle {
     pub(crate) fn write(&self, asset: CacheEntry) {
         self.inner.write(asset);
     }
+
+    /// Returns `true` if the value of this entry can be replaced when
+    /// hot-reloading.
+    #[cfg(feature = "hot-reloading")]
+    #[inline]
+    pub(crate) fn is_mutable(&self) -> bool {
+        self.inner.dynamic.is_some()
+    }
 }
 
 impl fmt::Debug for UntypedHandle {
